@@ -68,18 +68,21 @@ const (
 	c16Unit        = 1000    // seconds per offset unit: no real-time effect can come near it
 	c16MaxOff      = 980     // largest valid exp offset (980 000 s: 20 000 s below the maximum)
 	c16MaxClock    = 900     // the model clock never passes this, so that there is always room for a fresh valid exp
-	c16MaxSubjects = 4
+	c16MaxSubjects = 4       // subjects the ordinary ops of one history draw from
+	c16PoolSize    = 8       // identities available (the concurrent burst uses up to all of them)
 )
 
 // ---------------------------------------------------------------------------------------------------------------------
 // case
 
 type c16Op struct {
-	K string `json:"k"`           // reg | retract | bad | badretract | advance | poll | racepoll | reset | restart | srestart | get | settle | inject
+	K string `json:"k"`           // reg | retract | bad | badretract | validate | loop | outage | racereg | burst | selfpoll | advance | poll | racepoll | reset | restart | srestart | get | settle | inject
 	S int    `json:"s,omitempty"` // subject index
 	C int    `json:"c,omitempty"` // client index
 	D int    `json:"d,omitempty"` // reg/retract/bad: exp delta (units) · advance: clock delta · get: timestamp selector · reset: repopulation count
 	M string `json:"m,omitempty"` // retract: own|other|unknown|creds|nojti · bad/badretract/inject: defect · racepoll: reg|retract
+	F int    `json:"f,omitempty"` // poll/validate/loop: bit i set = on this client, during this op, verification of presentations signed by subject i FAILS
+	N int    `json:"n,omitempty"` // burst: number of concurrent registrations · racereg: selector of the second subject
 	V bool   `json:"v,omitempty"` // poll: also run the background validate() · reg: submit through client 0 (forwarding)
 }
 
@@ -163,6 +166,8 @@ func c16Gen(t *rapid.T) c16Case {
 		"settle",
 		"inject",
 		"badretract", "badretract", "badretract",
+		"validate", "validate", "loop", "outage", "outage",
+		"racereg", "racereg", "burst", "selfpoll", "selfpoll",
 	}
 	for i := 0; i < n; i++ {
 		k := rapid.SampledFrom(kinds).Draw(t, "k")
@@ -193,6 +198,27 @@ func c16Gen(t *rapid.T) c16Case {
 		case "poll":
 			op.C = rapid.IntRange(0, c.Clients-1).Draw(t, "c")
 			op.V = rapid.Bool().Draw(t, "v")
+			op.F = c16GenMask(t, c.Subjects)
+		case "validate", "loop":
+			op.C = rapid.IntRange(0, c.Clients-1).Draw(t, "c")
+			op.F = c16GenMask(t, c.Subjects)
+		case "outage":
+			op.C = rapid.IntRange(0, c.Clients-1).Draw(t, "c")
+			op.S = rapid.IntRange(0, c.Subjects-1).Draw(t, "s")
+			op.D = rapid.IntRange(1, 60).Draw(t, "d")
+			op.F = c16GenMask(t, c.Subjects)
+		case "racereg":
+			op.S = rapid.IntRange(0, c.Subjects-1).Draw(t, "s")
+			op.N = rapid.IntRange(0, c16MaxSubjects).Draw(t, "s2")
+			op.D = rapid.IntRange(1, 60).Draw(t, "d")
+			op.M = rapid.SampledFrom([]string{"0", "1", "1", "2"}).Draw(t, "at")
+		case "burst":
+			op.N = rapid.IntRange(2, c16PoolSize).Draw(t, "n")
+			op.D = rapid.IntRange(1, 60).Draw(t, "d")
+		case "selfpoll":
+			op.S = rapid.IntRange(0, c.Subjects-1).Draw(t, "s")
+			op.D = rapid.IntRange(1, 60).Draw(t, "d")
+			op.M = rapid.SampledFrom([]string{"none", "reg", "retract", "reg2", "reg2", "retract2"}).Draw(t, "m")
 		case "racepoll":
 			op.C = rapid.IntRange(0, c.Clients-1).Draw(t, "c")
 			op.S = rapid.IntRange(0, c.Subjects-1).Draw(t, "s")
@@ -208,6 +234,18 @@ func c16Gen(t *rapid.T) c16Case {
 		c.Ops = append(c.Ops, op)
 	}
 	return c
+}
+
+// c16GenMask: which subjects' presentations fail verification on the polling client (0 = none; all bits = verifier outage).
+func c16GenMask(t *rapid.T, subjects int) int {
+	switch rapid.IntRange(0, 9).Draw(t, "fmode") {
+	case 0, 1, 2, 3, 4:
+		return 0
+	case 5:
+		return 1<<uint(subjects) - 1
+	default:
+		return rapid.IntRange(1, 1<<uint(subjects)-1).Draw(t, "fmask")
+	}
 }
 
 // ---------------------------------------------------------------------------------------------------------------------
@@ -267,7 +305,7 @@ func c16NewKeyID() *c16ID {
 
 func c16Init(tb testing.TB) {
 	c16Once.Do(func() {
-		for i := 0; i < c16MaxSubjects; i++ {
+		for i := 0; i < c16PoolSize; i++ {
 			c16Subjects = append(c16Subjects, c16NewJWKID())
 		}
 		c16Authority = c16NewJWKID()
@@ -318,15 +356,45 @@ func c16Sign(key *ecdsa.PrivateKey, kid string, claims map[string]interface{}) (
 // c16Verifier delegates to the real verifier and records which presentations this node verified successfully.
 type c16Verifier struct {
 	verifier.Verifier
-	mu sync.Mutex
-	ok map[string]bool
-	n  int
+	mu      sync.Mutex
+	ok      map[string]bool
+	n       int
+	failFor map[string]bool // signer DID → verification fails now (injected fault: this node cannot verify them at the moment)
+	passed  int             // since the knob was last set
+	failed  int
+}
+
+func (v *c16Verifier) setFailures(mask int) {
+	v.mu.Lock()
+	defer v.mu.Unlock()
+	v.failFor = map[string]bool{}
+	for i := 0; i < c16PoolSize; i++ {
+		if mask&(1<<uint(i)) != 0 {
+			v.failFor[c16Subjects[i].did.String()] = true
+		}
+	}
+	v.passed, v.failed = 0, 0
 }
 
 func (v *c16Verifier) VerifyVP(vp vc.VerifiablePresentation, verifyVCs bool, allowUntrustedVCs bool, validAt *time.Time) ([]vc.VerifiableCredential, error) {
+	v.mu.Lock()
+	inject := len(v.failFor) > 0 && v.failFor[c16Signer(vp)]
+	v.mu.Unlock()
+	if inject {
+		v.mu.Lock()
+		v.n++
+		v.failed++
+		v.mu.Unlock()
+		return nil, errors.New("verif: injected verification failure (key of the signer cannot be resolved right now)")
+	}
 	res, err := v.Verifier.VerifyVP(vp, verifyVCs, allowUntrustedVCs, validAt)
 	v.mu.Lock()
 	v.n++
+	if err == nil {
+		v.passed++
+	} else {
+		v.failed++
+	}
 	if err == nil && vp.ID != nil && verifyVCs {
 		v.ok[vp.ID.String()] = true
 	}
@@ -362,6 +430,8 @@ type c16Node struct {
 	// client bookkeeping: the server was reset and this client has not been seen converged since (sticky, so that the
 	// consequences of one mishandled reset keep one signature)
 	resetSinceSettle bool
+	// verification failures were injected on this client: what it shows is only complete after a clean validate()
+	hadFailures bool
 }
 
 type c16Entry struct {
@@ -394,10 +464,15 @@ type c16World struct {
 	allOffs    map[string]int // every presentation id ever built → offset (for ageing)
 	memberVC   map[int]vc.VerifiableCredential
 
-	armed   func() // fired by the server DB callback after the next query
-	racing  bool
-	stats   struct{ polls, accepted, rejected, racesFired int }
-	history struct {
+	armed     func() // fired by the server DB callback after the next query
+	armedReg  func() // fired by the server DB callback after the armedK-th next query that is NOT inside a transaction
+	armedK    int
+	beforeGet func() // fired by the link when a Get request arrives (the caller has already chosen its timestamp)
+	afterGet  func() // fired by the link right after the server produced a Get response (the response is "in flight")
+	abort     bool   // stop the history (the state is known to be corrupt; one signature per cause)
+	racing    bool
+	stats     struct{ polls, accepted, rejected, racesFired int }
+	history   struct {
 		pollSeen, mutationAfterPoll, pollAfterMutation bool
 	}
 }
@@ -491,7 +566,16 @@ func (l *c16Link) Get(ctx context.Context, endpoint string, timestamp int) (map[
 	if endpoint != c16Endpoint {
 		return nil, "", 0, fmt.Errorf("unknown endpoint %s", endpoint)
 	}
-	return l.w.serverGet(ctx, timestamp)
+	if f := l.w.beforeGet; f != nil {
+		l.w.beforeGet = nil
+		f()
+	}
+	entries, seed, ts, err := l.w.serverGet(ctx, timestamp)
+	if f := l.w.afterGet; f != nil {
+		l.w.afterGet = nil
+		f()
+	}
+	return entries, seed, ts, err
 }
 
 // serverGet is Get on the server + the Get oracle + the JSON round trip of the HTTP API.
@@ -818,7 +902,7 @@ func (w *c16World) checkGet(after int, entries map[string]vc.VerifiablePresentat
 	if racing {
 		return
 	}
-	for s := 0; s < w.c.Subjects; s++ {
+	for s := 0; s < c16PoolSize; s++ {
 		e := w.list[s]
 		if e == nil {
 			continue
@@ -924,6 +1008,8 @@ func (w *c16World) accepted(e *c16Entry) {
 func (w *c16World) register(vp vc.VerifiablePresentation, e *c16Entry, expect int, label string, via bool) bool {
 	x := w.x
 	err := w.submit(vp, via)
+	// a second registration armed to run INSIDE this one (opRaceReg) must not fire in the harness's own queries afterwards
+	w.armedReg = nil
 	switch {
 	case err == nil && expect < 0:
 		x.Violate("accept:"+label, "server accepted a %s registration (%s)", label, e.id)
@@ -1186,9 +1272,268 @@ func (w *c16World) poll(c *c16Node, validate bool) {
 	}
 }
 
-func (w *c16World) opPoll(ci int, validate bool) {
-	w.poll(w.clients[ci], validate)
+// withFailures runs fn while verification of the masked subjects' presentations fails on client c.
+func (w *c16World) withFailures(c *c16Node, mask int, what string, fn func()) {
+	if mask != 0 {
+		c.hadFailures = true
+	}
+	c.ver.setFailures(mask)
+	fn()
+	c.ver.mu.Lock()
+	passed, failed := c.ver.passed, c.ver.failed
+	c.ver.mu.Unlock()
+	c.ver.setFailures(0)
+	if mask != 0 && failed > 0 {
+		w.x.Classf("%s:with-injected-verification-failures", what)
+	}
+	if passed > 0 && failed > 0 {
+		w.x.Classf("%s:mixed-verification-outcomes", what)
+	}
+}
+
+func (w *c16World) opPoll(ci int, validate bool, mask int) {
+	c := w.clients[ci]
+	w.withFailures(c, mask, "poll", func() { w.poll(c, validate) })
 	w.polled()
+}
+
+// opValidate: the background validation of entries that are not validated yet.
+func (w *c16World) opValidate(ci int, mask int) {
+	c := w.clients[ci]
+	w.withFailures(c, mask, "validate", func() {
+		w.x.NoErr(c.mod.registrationManager.validate(), "validate")
+	})
+}
+
+// opOutage: two subjects (s and the next) refresh; client c polls (after each) while it cannot verify anything (verifier
+// outage), so both entries are stored unvalidated; then the background validation runs while verification still fails for some subjects
+// (mask; a degenerate mask becomes "only subject s fails"): mixed outcomes among several unvalidated entries.
+func (w *c16World) opOutage(ci, s, d, mask int) {
+	c := w.clients[ci]
+	s2 := (s + 1) % w.c.Subjects
+	// one poll per entry, so that the order in which the client stored them does not depend on map iteration (replayable)
+	all := 1<<uint(c16PoolSize) - 1
+	w.opReg(s, d, false)
+	w.withFailures(c, all, "poll", func() { w.poll(c, false) })
+	w.opReg(s2, d, false)
+	w.withFailures(c, all, "poll", func() { w.poll(c, false) })
+	w.polled()
+	if mask&(1<<uint(s)|1<<uint(s2)) == 0 || mask&(1<<uint(s)) != 0 && mask&(1<<uint(s2)) != 0 {
+		mask = 1 << uint(s)
+	}
+	w.withFailures(c, mask, "validate", func() {
+		w.x.NoErr(c.mod.registrationManager.validate(), "validate")
+	})
+}
+
+// opLoop: one round of the production refresh loop (Module.update's do()): refresh own registrations (there are none),
+// update the local copies, validate what is not validated yet, remove what was revoked.
+func (w *c16World) opLoop(ci int, mask int) {
+	c := w.clients[ci]
+	w.stats.polls++
+	w.withFailures(c, mask, "loop", func() {
+		ctx := context.Background()
+		w.x.NoErr(c.mod.registrationManager.refresh(ctx, time.Now()), "loop: refresh")
+		w.x.NoErr(c.mod.clientUpdater.update(ctx), "loop: update")
+		w.x.NoErr(c.mod.registrationManager.validate(), "loop: validate")
+		w.x.NoErr(c.mod.registrationManager.removeRevoked(), "loop: removeRevoked")
+	})
+	w.polled()
+}
+
+// opRaceReg: subject s registers; a registration of ANOTHER subject runs (completely) after the at-th query the first one
+// issues on the server database outside a transaction (inside one the single sqlite connection is taken: the database
+// serialises, which is the lock doing its work). If the first never gets that far, the second simply follows it.
+func (w *c16World) opRaceReg(s, sel, d int, at string) {
+	s2 := (s + 1 + sel%(w.c.Subjects-1)) % w.c.Subjects
+	if s2 == s {
+		s2 = (s + 1) % w.c.Subjects
+	}
+	k, _ := strconv.Atoi(at)
+	fired := false
+	w.armedK = k
+	w.armedReg = func() {
+		fired = true
+		w.opReg(s2, d, false)
+	}
+	w.opReg(s, d, false)
+	w.armedReg = nil
+	if fired {
+		w.x.Classf("racereg:second-registration-inside-the-first-at-%s", at)
+	} else {
+		w.x.Class("racereg:second-registration-after-the-first")
+		w.opReg(s2, d, false)
+	}
+	_, _, _, _ = w.serverGet(context.Background(), 0)
+}
+
+// opBurst: n subjects register at the same time from n goroutines. SAMPLED: the interleaving is the runtime's, a failure
+// found here may not reproduce on every replay (signatures carry the prefix "sampled:").
+func (w *c16World) opBurst(n, d int) {
+	x := w.x
+	if n > c16PoolSize {
+		n = c16PoolSize
+	}
+	type item struct {
+		e   *c16Entry
+		err error
+	}
+	items := make([]item, n)
+	for i := 0; i < n; i++ {
+		off := w.nextOff(i, d)
+		vp, id := w.validVP(i, off)
+		items[i].e = &c16Entry{id: id, subj: i, kind: "reg", off: off, vp: vp}
+	}
+	refresh := false
+	for i := 0; i < n; i++ {
+		if w.list[i] != nil {
+			refresh = true
+		}
+	}
+	start := make(chan struct{})
+	var wg sync.WaitGroup
+	for i := range items {
+		wg.Add(1)
+		go func(i int) {
+			defer wg.Done()
+			<-start
+			items[i].err = w.link.Register(context.Background(), c16Endpoint, items[i].e.vp)
+		}(i)
+	}
+	close(start)
+	wg.Wait()
+	x.Classf("burst:sampled-%d-concurrent", n)
+	prevMax := w.epochMaxTS
+	var okItems []*c16Entry
+	for i := range items {
+		if items[i].err != nil {
+			x.Violate("sampled:reject:concurrent-registration", "server refused a valid registration submitted concurrently with %d others: %v", n-1, items[i].err)
+			continue
+		}
+		okItems = append(okItems, items[i].e)
+	}
+	entries, seed, ts, err := w.server.mod.Get(context.Background(), c16ServiceID, 0)
+	x.NoErr(err, "Get after burst")
+	byID := map[string][]int{}
+	for key, vp := range entries {
+		if vp.ID != nil {
+			k, _ := strconv.Atoi(key)
+			byID[vp.ID.String()] = append(byID[vp.ID.String()], k)
+		}
+	}
+	usedTS := map[int]string{}
+	for _, e := range okItems {
+		w.stats.accepted++
+		w.epochByID[e.id] = e
+		w.everByID[e.id] = e
+		w.list[e.subj] = e
+		if e.off > w.lastOff[e.subj] {
+			w.lastOff[e.subj] = e.off
+		}
+		ks := byID[e.id]
+		if len(ks) != 1 {
+			x.Violate("sampled:not-handed-out", "registration %s of subject %d, accepted concurrently with %d others, is handed out %d times by Get(0)", e.id, e.subj, n-1, len(ks))
+			continue
+		}
+		e.ts = ks[0]
+		if e.ts <= prevMax {
+			x.Violate("sampled:timestamp-not-increasing", "%s got timestamp %d, %d was handed out before the burst", e.id, e.ts, prevMax)
+		}
+		if o, dup := usedTS[e.ts]; dup {
+			x.Violate("sampled:timestamp-reused", "%s and %s both got timestamp %d", o, e.id, e.ts)
+		}
+		usedTS[e.ts] = e.id
+		if e.ts > w.epochMaxTS {
+			w.epochMaxTS = e.ts
+		}
+	}
+	// rows: the same, below the Get API (which collapses equal timestamps into one map key)
+	var rows []presentationRecord
+	x.NoErr(w.server.db.Find(&rows, "service_id = ?", c16ServiceID).Error, "rows after burst")
+	rowTS := map[int]string{}
+	for _, r := range rows {
+		if o, dup := rowTS[r.LamportTimestamp]; dup {
+			x.Violate("sampled:timestamp-reused", "rows %s and %s both carry timestamp %d", o, r.PresentationID, r.LamportTimestamp)
+		}
+		rowTS[r.LamportTimestamp] = r.PresentationID
+	}
+	if len(x.Violations()) > 0 {
+		w.abort = true
+		return
+	}
+	if w.seed == "" {
+		w.seed = seed
+	}
+	if refresh {
+		w.mutation()
+	}
+	w.checkGet(0, entries, seed, ts, false)
+	w.checkRows()
+}
+
+// opSelfPoll: the server node runs its OWN client update for the service it serves (the production loop updates every
+// definition the node knows, also the ones it serves itself; the shared HTTP client then calls the node's own endpoint).
+// Optionally a registration arrives right after the server produced the response of that Get.
+func (w *c16World) opSelfPoll(s, d int, what string) {
+	x := w.x
+	var replaced, newer *c16Entry
+	if what == "reg2" || what == "retract2" {
+		// … and another one of the same subject arrived after the node chose the timestamp to ask for
+		w.beforeGet = func() { w.opReg(s, d, false) }
+	}
+	if what != "none" {
+		w.afterGet = func() {
+			replaced = w.list[s]
+			if what == "retract" || what == "retract2" {
+				w.opRetract(s, d, "own")
+			} else {
+				w.opReg(s, d, false)
+			}
+			if cur := w.list[s]; cur != replaced {
+				newer = cur
+			}
+		}
+	}
+	// the entry point of the production loop: update every service the node's client updater knows
+	polled := false
+	prev := w.beforeGet
+	w.beforeGet = func() {
+		polled = true
+		if prev != nil {
+			prev()
+		}
+	}
+	err := w.server.mod.clientUpdater.update(context.Background())
+	w.afterGet, w.beforeGet = nil, nil
+	x.NoErr(err, "self poll")
+	x.Classf("selfpoll:%s", what)
+	if !polled {
+		// the node does not keep a client copy of what it serves: nothing can interleave
+		x.Class("selfpoll:node-does-not-poll-itself")
+	}
+	if newer != nil {
+		x.Class("selfpoll:racing-a-registration")
+		// did the node's own client update damage the list it serves (same store)? E.g. put a replaced presentation back over
+		// the newer one and set the timestamp back, or wipe the list because the seed "changed" (first registration ever).
+		var rows []presentationRecord
+		x.NoErr(w.server.db.Find(&rows, "service_id = ? AND credential_subject_id = ?", c16ServiceID, c16Subjects[s].did.String()).Error, "self poll: rows")
+		var svc serviceRecord
+		x.NoErr(w.server.db.Find(&svc, "id = ?", c16ServiceID).Error, "self poll: service row")
+		hasNewer := false
+		for _, r := range rows {
+			if r.PresentationID == newer.id {
+				hasNewer = true
+			}
+		}
+		if !hasNewer || svc.LastLamportTimestamp < w.epochMaxTS || svc.Seed != w.seed {
+			x.Violate("selfpoll:own-client-update-damaged-the-served-list", "server updating its own 'client copy' while subject %d registered %s: entry still stored=%v, service timestamp %d (handed out: %d), seed %q (was %q)",
+				s, newer.id, hasNewer, svc.LastLamportTimestamp, w.epochMaxTS, svc.Seed, w.seed)
+			w.abort = true
+			return
+		}
+	}
+	_, _, _, _ = w.serverGet(context.Background(), 0)
+	w.checkRows()
 }
 
 func (w *c16World) opRacePoll(ci, s, d int, what string) {
@@ -1260,6 +1605,25 @@ func (w *c16World) opSettle(ci int) {
 	w.poll(c, false)
 	w.reage()
 	w.polled()
+	if c.hadFailures {
+		// entries this client could not verify when it fetched them only show after the background validation
+		w.x.NoErr(c.mod.registrationManager.validate(), "settle: validate")
+		w.x.Class("settle:after-validate")
+	}
+	w.settleCompare(c, "")
+	if !c.hadFailures && len(x.Violations()) == 0 {
+		// a clean validate() pass must not change anything
+		w.x.NoErr(c.mod.registrationManager.validate(), "settle: validate")
+		w.settleCompare(c, ":after-validate")
+	}
+	if len(x.Violations()) == 0 {
+		c.resetSinceSettle = false
+		c.hadFailures = false
+	}
+}
+
+func (w *c16World) settleCompare(c *c16Node, stage string) {
+	x := w.x
 	want := map[string]*c16Entry{}
 	for _, e := range w.list {
 		if e.kind == "reg" && !w.expired(e) {
@@ -1267,9 +1631,12 @@ func (w *c16World) opSettle(ci int) {
 		}
 	}
 	got := w.search(c, map[string]string{})
-	suffix := ""
+	suffix := stage
+	if c.hadFailures {
+		suffix = ":after-verification-failures"
+	}
 	if c.resetSinceSettle {
-		suffix = ":after-server-reset"
+		suffix += ":after-server-reset"
 	}
 	for _, id := range c16SortedKeys(want) {
 		e := want[id]
@@ -1284,7 +1651,7 @@ func (w *c16World) opSettle(ci int) {
 	}
 	// the same through a query on the subject (only when the unfiltered result was right, to keep one signature per cause)
 	if len(x.Violations()) == 0 {
-		for s := 0; s < w.c.Subjects; s++ {
+		for s := 0; s < c16PoolSize; s++ {
 			res := w.search(c, map[string]string{"credentialSubject.id": c16Subjects[s].did.String()})
 			wantID := ""
 			if e := w.list[s]; e != nil && e.kind == "reg" && !w.expired(e) {
@@ -1304,9 +1671,6 @@ func (w *c16World) opSettle(ci int) {
 		x.Class("settle:non-empty")
 	} else {
 		x.Class("settle:empty")
-	}
-	if len(x.Violations()) == 0 {
-		c.resetSinceSettle = false
 	}
 }
 
@@ -1429,17 +1793,34 @@ func c16Run(x *h.Ctx, c c16Case) {
 		}
 	})
 	// the race hook: runs whatever is armed right after the next completed query on the server database
-	err := w.server.db.Callback().Query().After("gorm:query").Register("verif:c16", func(*gorm.DB) {
+	err := w.server.db.Callback().Query().After("gorm:query").Register("verif:c16", func(d *gorm.DB) {
 		if f := w.armed; f != nil {
 			w.armed = nil
+			f()
+			return
+		}
+		if w.armedReg != nil {
+			if _, inTx := d.Statement.ConnPool.(gorm.TxCommitter); inTx {
+				return
+			}
+			if w.armedK > 0 {
+				w.armedK--
+				return
+			}
+			f := w.armedReg
+			w.armedReg = nil
 			f()
 		}
 	})
 	x.NoErr(err, "register gorm callback")
 
 	for _, op := range c.Ops {
-		if op.S < 0 || op.S >= c.Subjects || op.C < 0 || op.C >= c.Clients || op.D < 0 || op.D > 1000 {
+		if op.S < 0 || op.S >= c.Subjects || op.C < 0 || op.C >= c.Clients || op.D < 0 || op.D > 1000 ||
+			op.F < 0 || op.F >= 1<<c16PoolSize || op.N < 0 || op.N > 64 {
 			return
+		}
+		if w.abort {
+			break
 		}
 		x.Classf("op:%s", op.K)
 		switch op.K {
@@ -1456,7 +1837,22 @@ func c16Run(x *h.Ctx, c c16Case) {
 		case "advance":
 			w.opAdvance(op.D)
 		case "poll":
-			w.opPoll(op.C, op.V)
+			w.opPoll(op.C, op.V, op.F)
+		case "validate":
+			w.opValidate(op.C, op.F)
+		case "loop":
+			w.opLoop(op.C, op.F)
+		case "outage":
+			w.opOutage(op.C, op.S, op.D, op.F)
+		case "racereg":
+			w.opRaceReg(op.S, op.N, op.D, op.M)
+		case "burst":
+			if op.N < 2 {
+				return
+			}
+			w.opBurst(op.N, op.D)
+		case "selfpoll":
+			w.opSelfPoll(op.S, op.D, op.M)
 		case "racepoll":
 			w.opRacePoll(op.C, op.S, op.D, op.M)
 		case "reset":
@@ -1473,14 +1869,19 @@ func c16Run(x *h.Ctx, c c16Case) {
 		default:
 			return
 		}
+		if w.abort {
+			break
+		}
 		w.reage()
 		w.checkSearchSafety()
 	}
-	for i := range w.clients {
-		w.opSettle(i)
+	if !w.abort {
+		for i := range w.clients {
+			w.opSettle(i)
+		}
+		w.checkSearchSafety()
+		w.checkRows()
 	}
-	w.checkSearchSafety()
-	w.checkRows()
 	if w.history.pollAfterMutation {
 		x.NonTrivial()
 	}
